@@ -116,14 +116,46 @@ Definition check_find (c : find_case) : option string :=
        else Some "find:states"
   .
 
+(** ------------------------------------------------------------------------------------------------
+    L4: the whole pipeline on one history: log text + git answers + parser table + glob list -> final entry list
+    (Model/GitBranch.classify) vs the real GitBranchFinder.Find *)
+Record history_case := {
+  hc_changes : changes_case;                               (* the git transcript (cc_observed is not used here) *)
+  hc_parse : list (N * string * list entry);               (* (body id, path name) -> readRules *)
+  hc_glob : list entry;
+  hc_observed : list obs_entry
+}.
+
+Fixpoint parse_of (t : list (N * string * list entry)) (id : N) (p : string) : list entry :=
+  match t with
+  | [] => []
+  | (i, q, es) :: r => if (N.eqb i id && String.eqb q p)%bool then es else parse_of r id p
+  end.
+
+Definition check_history (h : history_case) : option string :=
+  let c := hc_changes h in
+  match classify
+          (fun rev p => assoc2 rev p (cc_types c) GC.Missing)
+          (fun _ => true) (fun _ => false)
+          (fun rev p => assoc2 rev p (cc_bodies c) 0%N)
+          (fun id => assocN id (cc_body_lines c))
+          (fun rev p => assoc2 rev p (cc_blames c) [])
+          (parse_of (hc_parse h))
+          (hc_glob h) (cc_lines c) with
+  | None => Some "history:model-crash"
+  | Some final =>
+    if list_eqb obs_entry_eqb (map proj_entry final) (hc_observed h) then None else Some "history:final-entries"
+  end.
+
 (** ------------------------------------------------------------------------------------------------ *)
 Inductive case :=
 | MatchCase (id : N) (before after : list entry) (observed : list obs_matched)
 | ChangesCase (id : N) (c : changes_case)
-| FindCase (id : N) (c : find_case).
+| FindCase (id : N) (c : find_case)
+| HistoryCase (id : N) (c : history_case).
 
 Definition case_id (c : case) : N :=
-  match c with MatchCase id _ _ _ => id | ChangesCase id _ => id | FindCase id _ => id end.
+  match c with MatchCase id _ _ _ => id | ChangesCase id _ => id | FindCase id _ => id | HistoryCase id _ => id end.
 
 Definition check (c : case) : option string :=
   match c with
@@ -132,6 +164,7 @@ Definition check (c : case) : option string :=
     else Some "matchEntries"
   | ChangesCase _ c => check_changes c
   | FindCase _ c => check_find c
+  | HistoryCase _ c => check_history c
   end.
 
 Fixpoint mismatches (cs : list case) : list (N * string) :=
